@@ -1,0 +1,153 @@
+//! Verification hooks (compiled only with `--cfg ckb_verif`): a read-only dump of the pool's
+//! contents and bookkeeping, taken under the pool's own lock, plus the log of chain
+//! reorganisation notifications the pool has processed.
+use crate::component::pool_map::Status;
+use crate::pool::TxPool;
+use ckb_types::core::TransactionView;
+use ckb_types::packed::{Byte32, OutPoint, ProposalShortId};
+
+/// One pool entry with the aggregates the pool maintains for it.
+#[derive(Clone, Debug)]
+pub struct VerifEntry {
+    /// proposal short id
+    pub id: ProposalShortId,
+    /// the transaction
+    pub tx: TransactionView,
+    /// "pending" | "gap" | "proposed"
+    pub status: &'static str,
+    /// serialized size in block
+    pub size: usize,
+    /// verified cycles
+    pub cycles: u64,
+    /// fee in shannons
+    pub fee: u64,
+    /// entry timestamp
+    pub timestamp: u64,
+    /// ancestors (count, size, cycles, fee), self included
+    pub ancestors: (usize, usize, u64, u64),
+    /// descendants (count, size, cycles, fee), self included
+    pub descendants: (usize, usize, u64, u64),
+    /// direct parents recorded in the link map
+    pub parents: Vec<ProposalShortId>,
+    /// direct children recorded in the link map
+    pub children: Vec<ProposalShortId>,
+    /// does the link map have a row for this entry
+    pub has_links: bool,
+}
+
+/// One processed reorganisation notification.
+#[derive(Clone, Debug)]
+pub struct VerifReorg {
+    /// hashes of the detached blocks, in the order given
+    pub detached: Vec<Byte32>,
+    /// hashes of the attached blocks, in the order given
+    pub attached: Vec<Byte32>,
+    /// proposal ids reported as having left the window
+    pub detached_proposal_ids: Vec<ProposalShortId>,
+    /// tip of the snapshot handed over
+    pub snapshot_tip: Byte32,
+}
+
+/// The dump.
+#[derive(Clone, Debug, Default)]
+pub struct VerifPoolDump {
+    /// all entries
+    pub entries: Vec<VerifEntry>,
+    /// link-map ids without an entry
+    pub dangling_link_ids: Vec<ProposalShortId>,
+    /// edges.inputs
+    pub edge_inputs: Vec<(OutPoint, ProposalShortId)>,
+    /// edges.deps
+    pub edge_deps: Vec<(OutPoint, Vec<ProposalShortId>)>,
+    /// edges.header_deps
+    pub edge_header_deps: Vec<(ProposalShortId, Vec<Byte32>)>,
+    /// total_tx_size
+    pub total_tx_size: usize,
+    /// total_tx_cycles
+    pub total_tx_cycles: u64,
+    /// (pending, gap, proposed) counters
+    pub counts: (usize, usize, usize),
+    /// max ancestors limit
+    pub max_ancestors_count: usize,
+    /// tip of the pool's snapshot
+    pub snapshot_tip: Byte32,
+    /// reorganisation notifications processed since the previous dump
+    pub reorgs: Vec<VerifReorg>,
+}
+
+pub(crate) fn dump(tx_pool: &mut TxPool) -> VerifPoolDump {
+    let map = &tx_pool.pool_map;
+    let entries = map
+        .iter()
+        .map(|e| {
+            let links = map.links.inner.get(&e.id);
+            VerifEntry {
+                id: e.id.clone(),
+                tx: e.inner.transaction().clone(),
+                status: match e.status {
+                    Status::Pending => "pending",
+                    Status::Gap => "gap",
+                    Status::Proposed => "proposed",
+                },
+                size: e.inner.size,
+                cycles: e.inner.cycles,
+                fee: e.inner.fee.as_u64(),
+                timestamp: e.inner.timestamp,
+                ancestors: (
+                    e.inner.ancestors_count,
+                    e.inner.ancestors_size,
+                    e.inner.ancestors_cycles,
+                    e.inner.ancestors_fee.as_u64(),
+                ),
+                descendants: (
+                    e.inner.descendants_count,
+                    e.inner.descendants_size,
+                    e.inner.descendants_cycles,
+                    e.inner.descendants_fee.as_u64(),
+                ),
+                parents: links
+                    .map(|l| l.parents.iter().cloned().collect())
+                    .unwrap_or_default(),
+                children: links
+                    .map(|l| l.children.iter().cloned().collect())
+                    .unwrap_or_default(),
+                has_links: links.is_some(),
+            }
+        })
+        .collect();
+    let dangling_link_ids = map
+        .links
+        .inner
+        .keys()
+        .filter(|id| map.get_by_id(id).is_none())
+        .cloned()
+        .collect();
+    VerifPoolDump {
+        entries,
+        dangling_link_ids,
+        edge_inputs: map
+            .edges
+            .inputs
+            .iter()
+            .map(|(k, v)| (k.clone(), v.clone()))
+            .collect(),
+        edge_deps: map
+            .edges
+            .deps
+            .iter()
+            .map(|(k, v)| (k.clone(), v.iter().cloned().collect()))
+            .collect(),
+        edge_header_deps: map
+            .edges
+            .header_deps
+            .iter()
+            .map(|(k, v)| (k.clone(), v.clone()))
+            .collect(),
+        total_tx_size: map.total_tx_size,
+        total_tx_cycles: map.total_tx_cycles,
+        counts: (map.pending_count, map.gap_count, map.proposed_count),
+        max_ancestors_count: map.max_ancestors_count,
+        snapshot_tip: tx_pool.snapshot.tip_hash(),
+        reorgs: std::mem::take(&mut tx_pool.verif_reorg_log),
+    }
+}
